@@ -120,7 +120,19 @@ check('C05', 'exploration',
       'TLA+ facet/verdict table (TLC) + evaluation of real accept/reject observations',
       'DESIGN.md 4/C05')
 
-PENDING = ['C01', 'C02', 'C03', 'C04', 'C06', 'C07', 'C16', 'C17']
+check('C01', 'exploration',
+      'SpyneSignatures.tla defines the closed signature/value family (templates with holes: 11 leaf types x occurrence choices, '
+      'complex types in two namespaces, wrapped and unwrapped arrays, arrays of objects, inheritance across namespaces, XML '
+      'attributes, several arguments / return values, bare and out_bare styles; 1 980 cases) and SpyneXmlDoc.tla the published '
+      'document/literal mapping as a token-level encoder plus the equality Norm. For every case x {XmlDocument, Soap11, Soap12} x '
+      'validator {None, soft, lxml} the request is written by an independent encoder and TLC checks: the request IS the mapping of '
+      'the values, the user function ran once with equal values, the response IS the mapping of the returned value, the loopback '
+      'Spyne client decodes it to an equal value, and zeep - generated from the served WSDL alone - sends requests the server '
+      'accepts and decodes the replies to equal values.',
+      'TLA+ token-level encoder (TLC) validating real request/response documents + third-party client (zeep)',
+      'DESIGN.md 4/C01')
+
+PENDING = ['C02', 'C03', 'C04', 'C06', 'C07', 'C16', 'C17']
 
 def main():
     import importlib
